@@ -210,6 +210,15 @@ func profileConfig(p string, seed uint64) RunConfig {
 	case "C20":
 		c.Startup = startupPlan(seed)
 		c.Steps = 0
+	}
+	switch p {
+	case "C06", "C09", "C15", "C17":
+		// defects that need a history: a pool, a slab, a free list or a cache that only
+		// goes wrong after it has been round once (tens of requests, several cycles)
+		if seed%8 == 5 && c.Steps > 0 && !c.FreeRun && c.MaxRetrans < 10 && c.KernLatency < 200 {
+			c.Accum = true
+			c.Steps += 130
+		}
 	case "C18":
 		c.Interpose = false
 		c.KernLatency = pick(r, 0, 1, 7, 40)
@@ -222,6 +231,12 @@ func profileConfig(p string, seed uint64) RunConfig {
 			// slow data plane against short PFCP timers: timers fire inside event-loop turns
 			c.RetransMs = 137
 			c.KernLatency = pick(r, 40, 150)
+		}
+		if r.IntN(4) == 0 {
+			// ticks whose query the data plane refuses, URR removals it refuses: periodic
+			// reporting has to survive any number of them
+			c.Faults = append(c.Faults, "dp-perio")
+			c.Steps += 40
 		}
 		if r.IntN(4) == 0 {
 			// peers known by FQDN and a resolver that fails now and then: the reports of
@@ -376,10 +391,23 @@ func newGen(s *Sim) *Gen {
 		g.mass = 1
 		g.massPeriod = 1
 		g.w = map[string]int{"est": 14, "modurr": 2, "advshort": 6, "krepburst": 4, "reassoc": 3, "del": 3, "hb": 2, "armans": 4, "krep": 3}
+		if s.cfg.faultOn("dp-perio") {
+			g.w["fault"] = 8
+		}
 	case "C07":
 		g.mode = "wild"
 		g.perioOK = true
 		g.w = map[string]int{"hb": 2, "est": 6, "mod": 6, "del": 2, "raw": 24, "adv": 2, "krep": 3, "kbufnocp": 3, "reassoc": 1, "rawrsp": 6, "ans": 2}
+	}
+	if s.cfg.Accum {
+		switch p {
+		case "C06":
+			g.w["flood"] = 4
+		case "C09":
+			g.w["repflood"] = 4
+		case "C15", "C17":
+			g.w["cycle"] = 5
+		}
 	}
 	if s.cfg.faultOn("n4") {
 		g.w["n4err"] = 2
@@ -1169,6 +1197,54 @@ func (g *Gen) one() (Action, bool) {
 			},
 			func() (Action, bool) { return Action{Op: "dup", Ref: ref}, true })
 		return Action{Op: "send", SMF: mm.Idx, Msg: &MsgIntent{T: "hb", Seq: n}}, true
+	case "flood":
+		// one request, then more answered requests than any plausible pool of response
+		// buffers holds, then the first request once more (inside the retention window)
+		ref := s.actNo
+		n := pick(g.rng, 17, 33, 65, 70, 100, 129)
+		for i := 0; i < n; i++ {
+			g.pending = append(g.pending, func() (Action, bool) {
+				mm := s.smfs[g.intn(len(s.smfs))]
+				return Action{Op: "send", SMF: mm.Idx, Msg: &MsgIntent{T: "hb", Seq: g.seq(mm)}}, true
+			})
+		}
+		g.pending = append(g.pending, func() (Action, bool) { return Action{Op: "dup", Ref: ref}, true })
+		if x := g.liveOf(m, slot); x != nil && g.chance(0.5) {
+			return Action{Op: "send", SMF: m.Idx, Msg: &MsgIntent{T: "mod", Seq: g.seq(m), Slot: slot}}, true
+		}
+		return Action{Op: "send", SMF: m.Idx, Msg: &MsgIntent{T: pick(g.rng, "hb", "assoc"), Seq: g.seq(m)}}, true
+	case "repflood":
+		// many reports left unanswered at once, then the retransmission interval: every
+		// one of them is sent again, the oldest after all the others were encoded
+		n := pick(g.rng, 20, 50, 64, 80)
+		for i := 0; i < n; i++ {
+			g.pending = append(g.pending, g.krep)
+		}
+		g.pending = append(g.pending, func() (Action, bool) { return Action{Op: "adv", Ms: RT + int64(g.intn(20))}, true })
+		return g.krep()
+	case "cycle":
+		// the same period group filled and emptied again and again
+		p := uint32(pick(g.rng, 1, 2, 3))
+		n := 3 + g.intn(8)
+		for i := 0; i < n; i++ {
+			g.pending = append(g.pending,
+				func() (Action, bool) {
+					if g.liveOf(m, slot) != nil {
+						return Action{}, false
+					}
+					return Action{Op: "send", SMF: m.Idx, Msg: g.perioEst(m, slot, 1, p)}, true
+				},
+				func() (Action, bool) {
+					if g.liveOf(m, slot) == nil {
+						return Action{}, false
+					}
+					return Action{Op: "send", SMF: m.Idx, Msg: &MsgIntent{T: "del", Seq: g.seq(m), Slot: slot}}, true
+				})
+		}
+		if g.liveOf(m, slot) != nil {
+			return Action{Op: "send", SMF: m.Idx, Msg: &MsgIntent{T: "del", Seq: g.seq(m), Slot: slot}}, true
+		}
+		return Action{}, false
 	case "sameseq":
 		// another peer uses a sequence number this peer used recently
 		if len(s.smfs) < 2 || len(g.sent) == 0 {
